@@ -46,6 +46,8 @@ def gen_cases(tier, seed):
         for p in itertools.product("RESA", repeat=n):
             for pos in range(n + 1):
                 pres.append(p[:pos] + ("X",) + p[pos:])
+    # ... and with ONE callable object registered more than once ("B")
+    pres += [tuple(x) for x in ("BBR", "BBE", "BRB", "BAB", "BBRA", "BABR", "ABBR", "RBB", "BBRB")]
     for kind in (("mem",) if tier == "quick" else ("mem", "redis")):
         for i in range(0, len(pres), 17):
             cases.append({"type": "eager", "kind": kind, "pres": ["".join(p) for p in pres[i:i + 17]]})
@@ -166,7 +168,7 @@ async def eager_sequences(loop, kind, pres, out, stats, fps, samples):
                         steps_pre.append(["set_exception", "KeyError", f"x{len(steps_pre)}"])
                     else:
                         ci += 1
-                        steps_pre.append(["callback", f"c{ci}-{'async' if ch == 'A' else 'sync'}"])
+                        steps_pre.append(["callback", f"c{ci}-{'async' if ch == 'A' else ('shared' if ch == 'B' else 'sync')}"])
                 st = {"do": "eager", "action": action, "pre": steps_pre, "then": {"do": "ok"}}
                 if action in ("retry", "force_retry"):
                     st["next"] = 3600.0
